@@ -121,8 +121,8 @@ class PhaseMonitor:
                               sig=(self.prop, 'ended-early', shape))
 
     def on_error(self, pre, ms, ev, exc, ctx):
-        from ..explore import exc_signature
-        sig = exc_signature(exc)
+        from ..explore import exc_signature, error_shape
+        sig = exc_signature(exc) + (error_shape(ctx.cfg, list(ctx.path) + [ev]),)
         ctx.violation('legal-operation-raised',
                       f'{ev} was available (query said yes) but raised {type(exc).__name__}: {exc} at {sig[1]}: {sig[2]}',
                       path=list(ctx.path) + [ev], sig=(self.prop, 'raised') + sig)
